@@ -39,6 +39,8 @@ fn spawn_worker(id: &str, tier: Tier, seed: u64, index: usize, n: usize, cases: 
       &out.display().to_string(),
       &restart.to_string(),
     ])
+    // the harness already runs one worker process per core; rayon pools of 16 threads in each would only spin
+    .env("RAYON_NUM_THREADS", std::env::var("VERIF_RAYON_THREADS").unwrap_or_else(|_| "2".to_string()))
     .stdin(Stdio::null())
     .stdout(Stdio::null())
     .stderr(Stdio::from(errf))
@@ -348,6 +350,11 @@ pub fn run_check(prop: &'static dyn Prop, tier: Tier, seed: u64) -> i32 {
       println!("  | {line}");
     }
     exit = 1;
+  }
+  for (k, v) in &merged.discards {
+    if k.starts_with("INFRA:") {
+      inconclusive.push(format!("{v} cases could not be decided: {k}"));
+    }
   }
   if exit == 0 && !inconclusive.is_empty() {
     for m in &inconclusive {
